@@ -1065,6 +1065,19 @@ func variantsFor(m method) [][2]string { // (variant, wire)
 	if m.NS == "btc" && !strings.Contains(m.Name, "_") {
 		v = append(v, [2]string{"bare-btc", m.Name})
 	}
+	// other spellings of the same name (method names are matched exactly; a lenient lookup must not open
+	// a second way to a method that was filtered out under its documented name)
+	seen := map[string]bool{m.wire(): true}
+	for _, alt := range []string{strings.ToLower(m.Name), strings.ToUpper(m.Name), strings.ToUpper(m.Name[:1]) + m.Name[1:]} {
+		w := m.NS + "_" + alt
+		if !seen[w] {
+			seen[w] = true
+			v = append(v, [2]string{"spelling", w})
+			if m.NS == "aqua" {
+				v = append(v, [2]string{"spelling", "eth_" + alt})
+			}
+		}
+	}
 	return v
 }
 
@@ -1577,7 +1590,7 @@ func TestCheck(t *testing.T) {
 	}
 	log.Root().SetHandler(log.DiscardHandler())
 	run := ev.Start("exploration")
-	run.Rule = "one worker process per opt-in environment combination; in each, every method of every registered API (universe from the node, server's own reflection rule) x cartesian product of per-type argument lattices (<=3 varying arguments, <=400 tuples) x 4 transports x wire variants (plain, batch, eth_ alias, bare btc); a case is non-trivial when the call reached the method (result or callback error)"
+	run.Rule = "one worker process per opt-in environment combination; in each, every method of every registered API (universe from the node, server's own reflection rule) x cartesian product of per-type argument lattices (<=3 varying arguments, <=400 tuples) x 4 transports x wire variants (plain, batch, eth_ alias, bare btc, lower / upper / capitalised spelling of the method name); a case is non-trivial when the call reached the method (result or callback error)"
 	run.Assume("proof-of-work chain configuration (test chain, chain id 3); the clique sealer is exercised as a separate informational configuration in the thorough tier")
 	run.Assume("signing is observed through a recording wallet in front of the real keystore wallet, the transaction pool, and signatures in RPC results; a key use that bypasses the account manager, never reaches the pool and is not returned would not be seen")
 	run.Assume("keystore: one locked and one unlocked funded account, same passphrase; restored before every call")
